@@ -21,6 +21,16 @@ exec <items> <toks>                   -> data .. | panic <kind>
 meta-table <ty,..>                    -> ok        (registration order of the meta table)
 iter <id> <0|1>                       -> ok        (new iterator, 1 = iter_mut)
 iter-next <id>                        -> guard .. | none | panic <kind>
+scope <ok|panic> <take> ..            -> scoped <tok|-,..> <ok|explicit|panic:<kind>>   (closure under catch_unwind; `-` = no take)
+   takes: fetch:<ty> fetch-mut:<ty> try-fetch:<ty> try-fetch-mut:<ty> by-id:<tyArg>:<ty.dyn>
+          by-id-mut:<tyArg>:<ty.dyn> data:<items> iter:<0|1> clone:@<i> (i-th guard of the closure) clone:<h>
+insert-fused <tyArg> <ty.dyn> <tok>   -> unit | unwound drop | panic wrongType   (the replaced value's Drop panics)
+entry-held <ty> <tok> <0|1>           -> unwound closure   (caller panics holding the guard; 1 = or_insert)
+entry-fused <ty> <tok>                -> unwound drop | seen <tok>     (or_insert(v), v's Drop panics)
+entry-with-panic <ty>                 -> unwound closure | seen <tok>  (or_insert_with(|| panic!()))
+exec-panic <items> <toks>             -> unwound closure | panic <kind>
+drop-returned <tok>                   -> unit
+drop-world-panic <tok> <before>       -> leaked <toks> | bad-order     (world dropped, Drop of <tok> panics)
 probe                                 -> cells=.. guards=.. counts=<created>,<returned>,<dropped>
 ghost                                 -> created=.. returned=.. dropped=..
 drop-world                            -> unit
@@ -45,6 +55,15 @@ def showPanic : WPanic → String
 
 def showList (l : List String) : String := if l.isEmpty then "-" else ",".intercalate l
 
+def showFault : Fault → String
+  | .closure => "closure"
+  | .drop => "drop"
+
+def showEnd : ScopeEnd → String
+  | .returned => "ok"
+  | .panicked => "explicit"
+  | .refused p => "panic:" ++ showPanic p
+
 def showOut : Shred.Out → String
   | .unit => "unit"
   | .bool b => s!"bool {b}"
@@ -54,6 +73,9 @@ def showOut : Shred.Out → String
   | .seen t => s!"seen {t}"
   | .data fs => "data " ++ showList (fs.map fun f => match f with | some (h, t) => s!"{h}:{t}" | none => "-")
   | .panic p => "panic " ++ showPanic p
+  | .scopeDone seen fin =>
+    "scoped " ++ showList (seen.map fun x => match x with | some t => toString t | none => "-") ++ " " ++ showEnd fin
+  | .unwound f => "unwound " ++ showFault f
 
 def parseKey (s : String) : Option ResId :=
   match s.splitOn "." with
@@ -75,6 +97,24 @@ def parseItem (s : String) : Option Shred.World.SdItem :=
 
 def parseItems (s : String) : Option (List Shred.World.SdItem) := (parseList s).mapM parseItem
 def parseNats (s : String) : Option (List Nat) := (parseList s).mapM String.toNat?
+
+def parseTake (s : String) : Option Shred.World.Take :=
+  match s.splitOn ":" with
+  | ["fetch", ty] => ty.toNat?.map fun ty => .fetch ty false true
+  | ["fetch-mut", ty] => ty.toNat?.map fun ty => .fetch ty true true
+  | ["try-fetch", ty] => ty.toNat?.map fun ty => .fetch ty false false
+  | ["try-fetch-mut", ty] => ty.toNat?.map fun ty => .fetch ty true false
+  | ["by-id", a, k] => do pure (.byId (← a.toNat?) (← parseKey k) false)
+  | ["by-id-mut", a, k] => do pure (.byId (← a.toNat?) (← parseKey k) true)
+  | ["data", items] => (parseItems items).map .data
+  | ["iter", "0"] => some (.iter false)
+  | ["iter", "1"] => some (.iter true)
+  | ["clone", h] =>
+    if h.startsWith "@" then (h.drop 1).toString.toNat?.map .cloneLocal else h.toNat?.map .cloneOuter
+  | _ => none
+
+def parseTakes (ws : List String) : Option (List Shred.World.Take) :=
+  if ws == ["-"] then some [] else ws.mapM parseTake
 
 def showBorrow : Borrow → String
   | .free => "F"
@@ -137,6 +177,28 @@ def step (st : St) (ws : List String) : St × String :=
         ({ st with w := r.1, iters := (id, x, idx') :: st.iters.filter (·.1 != id) }, showOut r.2)
       | none => (st, "bad-op")
     | none => (st, "bad-op")
+  | "scope" :: e :: takes =>
+    match e, parseTakes takes with
+    | "ok", some ts => run st (some (.scope st.tys ts false))
+    | "panic", some ts => run st (some (.scope st.tys ts true))
+    | _, _ => (st, "bad-op")
+  | ["insert-fused", a, k, tok] => run st (do pure (.insertFused (← a.toNat?) (← parseKey k) (← tok.toNat?)))
+  | ["entry-held", ty, tok, "0"] => run st (do pure (.entryFault (← ty.toNat?) (← tok.toNat?) (.guardHeld false)))
+  | ["entry-held", ty, tok, "1"] => run st (do pure (.entryFault (← ty.toNat?) (← tok.toNat?) (.guardHeld true)))
+  | ["entry-fused", ty, tok] => run st (do pure (.entryFault (← ty.toNat?) (← tok.toNat?) .valueDrop))
+  | ["entry-with-panic", ty] => run st (do pure (.entryFault (← ty.toNat?) 0 .closure))
+  | ["exec-panic", items, toks] => run st (do pure (.execFault (← parseItems items) (← parseNats toks)))
+  | ["drop-returned", tok] =>
+    match tok.toNat? with
+    | some t => if t ∈ st.w.returned then ({ st with w := st.w.dropReturned t }, "unit") else (st, "bad-op")
+    | none => (st, "bad-op")
+  | ["drop-world-panic", tok, before] =>
+    match tok.toNat?, parseNats before with
+    | some t, some b =>
+      match st.w.dropWorldPanic t b with
+      | some (w', leaked) => ({ st with w := w' }, "leaked " ++ showList (leaked.map toString))
+      | none => (st, "bad-order")
+    | _, _ => (st, "bad-op")
   | ["probe"] => (st, showProbe st.w)
   | ["ghost"] => (st, showGhost st.w)
   | ["drop-world"] => ({ st with w := st.w.dropWorld }, "unit")
